@@ -22,6 +22,7 @@ class ViewModel:
             self.ctor_models.append({'fn': c, 'vg': vg, 'exits': exits, 'init': init, 'pre': pre})
         self.up_vg = VG(F, view)
         self.up_exits = self.up_vg.run(view.update, '') if view.update else []
+        self.up_exits = split_on_delivery(self.up_exits)
         self.last_vg = VG(F, view)
         self.last_exits = self.last_vg.run(view.last, '') if view.last else []
         self.last_ret = exits_value(self.last_exits, lambda ex: ex.ret)
@@ -47,6 +48,11 @@ class ViewModel:
                 if sub:
                     out.update(sub)
                     continue
+            if isinstance(t, tuple) and t and t[0] == 'tuple':
+                # tuple-typed field: components are the places `f.0`, `f.1`, ..
+                for i, x in enumerate(t[1]):
+                    out['%s%s.%d' % (prefix, k, i)] = x
+                continue
             out[prefix + k] = t
         return out
 
@@ -67,6 +73,47 @@ class ViewModel:
             exits = vg.run(self.v.last, '', None, fields)
             return exits_value(exits, lambda e: e.ret)
         return exits_value(self.up_exits, per_exit)
+
+
+def split_on_delivery(exits):
+    """Normal form: every exit of update() decides whether each inner view it asks has delivered. When the gate sits in an
+    inlined helper (or in an Option combinator) the merged exit carries phi(is_some(child.last()), ..) terms instead; such an
+    exit is split into the delivering and the non-delivering exit with the phis resolved."""
+    from .terms import resolve_by
+    from .vg import Exit, subterms, neg_cond
+    out = []
+    work = list(exits)
+    guard = 0
+    while work and guard < 64:
+        guard += 1
+        ex = work.pop(0)
+        decided = set()
+        for c in ex.pc:
+            if isinstance(c, tuple):
+                decided.add(c)
+                decided.add(neg_cond(c))
+        atom = None
+        for t in list(ex.fields.values()) + [c for c in ex.pc if isinstance(c, tuple)] + ([ex.ret] if isinstance(ex.ret, tuple) else []):
+            for x in subterms(t):
+                if x[0] == 'phi':
+                    for y in subterms(x[1]):
+                        if y[0] == 'is_some' and y[1][0] == 'childlast' and y not in decided:
+                            atom = y
+                            break
+                if atom is not None:
+                    break
+            if atom is not None:
+                break
+        if atom is None:
+            out.append(ex)
+            continue
+        for truth in (False, True):
+            lit_ = atom if truth else neg_cond(atom)
+            fields = {k: resolve_by(t, atom, truth) for k, t in ex.fields.items()}
+            pc = tuple(resolve_by(c, atom, truth) if isinstance(c, tuple) else c for c in ex.pc) + (lit_,)
+            ret = resolve_by(ex.ret, atom, truth) if isinstance(ex.ret, tuple) else ex.ret
+            work.append(Exit(pc, fields, ret, ex.node, ex.kind if truth else 'return'))
+    return out + work
 
 
 _cache = {}
